@@ -1310,11 +1310,14 @@ def wrap_ra_diff(dra):
         if not np.isfinite(dra):
             return dra
 
+        # not in place: the input can be a 0-d array
         while dra < -180.0:
-            dra += 360.0
+            dra = dra + 360.0
         while dra > 180.0:
-            dra -= 360.0
+            dra = dra - 360.0
     else:
+        # work on a copy, the caller's array is not modified
+        dra = np.array(dra, copy=True)
         msk_finite = np.isfinite(dra)
         msk = (dra < -180.0) & msk_finite
         while np.any(msk):
